@@ -33,7 +33,7 @@ ASSUMPTIONS = [
     'optimizers needing absent libraries (polychord, dypolychord) and plugin components (ace, BHMie) cannot be discovered here and are not judged',
     'CLI differential: taurex.taurex.main() run in-process with -i -o -S on files the harness wrote (pickle cross-sections, pickle CIA); spectrum compared with the same components built through the library, rtol 1e-9',
 ]
-REQUIRED = {'negative:miscased-contribution': 0.012, 'mixin-zero-valued-key': 0.012, 'two-mixins': 0.006, 'zero-valued-key': 0.05, 'part:sections': 0.12, 'part:cli': 0.06, 'part:selectors': 0.002, 'part:retrieval': 0.06, 'part:cli-retrieval': 0.03, 'negative': 0.05}
+REQUIRED = {'cli-binning:manual': 0.04, 'negative:miscased-contribution': 0.012, 'mixin-zero-valued-key': 0.012, 'two-mixins': 0.006, 'zero-valued-key': 0.05, 'part:sections': 0.12, 'part:cli': 0.06, 'part:selectors': 0.002, 'part:retrieval': 0.06, 'part:cli-retrieval': 0.03, 'negative': 0.05}
 # coverage-guided extra (thorough tier): pure-Python taurex modules on this property's path, instrumented by atheris
 FUZZ = {'include': ['taurex.parameter', 'taurex.util.util'], 'runs': 6000, 'workers': 4}
 
@@ -65,7 +65,7 @@ def _docdir():
 
 DOCDIR = _docdir()
 
-NUMFORM = st.sampled_from(['repr', 'exp', 'int', 'repr'])
+NUMFORM = st.sampled_from(['repr', 'exp', 'int', 'repr', 'EXP', 'plus'])
 BOOLTRUE = ['true', 'yes', 'True', 'YES']
 BOOLFALSE = ['false', 'no', 'False', 'NO']
 
@@ -76,7 +76,7 @@ def _opt(strategy):
 
 
 # 'part:variant' forces the composite-selector variant of that part (each variant gets its share of every run)
-STRATA = {'selectors': 1, 'cli-retrieval': 2, 'sections': 2, 'sections:mixin': 1, 'sections:mixin2': 0.5, 'sections:custom': 0.5, 'sections:negative': 1, 'cli': 2,
+STRATA = {'selectors': 1, 'cli-retrieval': 2, 'sections': 2, 'sections:mixin': 1, 'sections:mixin2': 0.5, 'sections:custom': 0.5, 'sections:negative': 1, 'sections:tfile': 0.7, 'cli': 2,
           'retrieval': 2}
 
 
@@ -127,7 +127,17 @@ def _case(draw, part=None):
     c['miscase'] = draw(S.ints(0, 5))
     c['neg_where'] = draw(st.sampled_from(['Temperature', 'Pressure', 'Chemistry', 'Model', 'Gas', 'Contribution', 'Planet', 'Star']))
     c['composite'] = draw(st.sampled_from(['mixin', None, 'mixin2', None, 'mixin', 'custom', 'mixin2r', None, 'mixin']))
-    if forced == 'negative':
+    if forced == 'tfile':
+        # the temperature profile read from a text file (profile_type = file) with its documented keys
+        c['temp'] = 'file'
+        c['composite'] = None
+        c['negative'] = None
+        c['tfile'] = {'skiprows': draw(st.sampled_from([None, 1, 2, 0, 1])), 'temp_col': draw(st.sampled_from([None, 0, 1])),
+                      'with_p': draw(st.booleans()), 'temp_units': draw(st.sampled_from([None, 'K'])),
+                      'press_units': draw(st.sampled_from([None, 'Pa', 'bar'])), 'reverse': draw(st.sampled_from([None, False, True])),
+                      'T': draw(st.lists(f(300.0, 2500.0), min_size=4, max_size=4)),
+                      'pressure_file': draw(st.sampled_from([True, False, True]))}
+    elif forced == 'negative':
         c['negative'] = draw(S.pick(['miscased-contribution', 'unknown-key', 'unknown-selector', 'unknown-contribution', 'miscased-contribution']))
         c['composite'] = None
     elif forced:
@@ -142,6 +152,11 @@ def _case(draw, part=None):
     c['tables'] = draw(st.lists(S.table(6, mag='mixed'), min_size=3, max_size=3))
     c['wn0'] = draw(f(300.0, 4000.0))
     c['dwn'] = draw(f(5.0, 300.0))
+    if part == 'cli':
+        # a [Binning] section for the program run: what is stored and saved is then the binned spectrum
+        c['cli_binning'] = draw(S.pick(['manual', 'native', None, 'manual']))
+        c['cli_bin'] = {'kind': draw(st.sampled_from(['wavenumber_grid', 'wavelength_grid', 'log_wavenumber_grid'])), 'n': draw(S.ints(2, 5)),
+                        'span': [draw(f(0.05, 0.35)), draw(f(0.65, 0.95))], 'accurate': draw(st.sampled_from([None, True, False]))}
     if part == 'cli-retrieval':
         nsm = draw(S.ints(3, 8))
         c['cube'] = [[draw(f(0.05, 0.95)), draw(f(0.05, 0.95))] for _ in range(nsm)]
@@ -292,6 +307,10 @@ def fmt_num(x, form):
         return str(int(x))
     if form == 'exp':
         return '%.17e' % x
+    if form == 'EXP':
+        return '%.17E' % x              # 1.5E+03: the exponent marker in capitals, as Fortran-minded users write it
+    if form == 'plus' and float(x) >= 0:
+        return '+' + repr(float(x))
     return repr(float(x))
 
 
@@ -427,7 +446,7 @@ def build_par(c, tmp, W):
     # ---- temperature
     tsel = c['temp']
     tk = c['tkeys']
-    tclass = {'isothermal': 'Isothermal', 'guillot': 'Guillot2010', 'guillot2010': 'Guillot2010', 'npoint': 'NPoint'}[tsel]
+    tclass = {'isothermal': 'Isothermal', 'guillot': 'Guillot2010', 'guillot2010': 'Guillot2010', 'npoint': 'NPoint', 'file': 'TemperatureFile'}[tsel]
     sel_text = tsel
     if c['composite'] == 'mixin' and tsel in ('isothermal', 'guillot', 'guillot2010'):
         sel_text = 'tempscalar+' + tsel
@@ -437,7 +456,43 @@ def build_par(c, tmp, W):
         sel_text = 'verifdoubler+verifadd50+isothermal' if c['composite'] == 'mixin2' else 'verifadd50+verifdoubler+isothermal'
     lines += ['[Temperature]', 'profile_type = %s' % sel_text]
     e = {}
-    keys = {'Isothermal': ['T'], 'Guillot2010': ['T_irr', 'kappa_irr', 'kappa_v1', 'kappa_v2', 'alpha', 'T_int'],
+    if tclass == 'TemperatureFile':
+        tf = c['tfile']
+        tcol = tf['temp_col'] if tf['temp_col'] is not None else 0
+        pcol = 1 - tcol
+        punit = tf['press_units'] or 'Pa'
+        pmax_ = c['pkeys']['atm_max_pressure'] if c['pkeys']['atm_max_pressure'] is not None else 1e6
+        pmin_ = c['pkeys']['atm_min_pressure'] if c['pkeys']['atm_min_pressure'] is not None else 1e-4
+        pr = [pmax_ * (pmin_ / pmax_) ** (i / 3.0) * (1e-5 if punit == 'bar' else 1.0) for i in range(4)]
+        tfn = os.path.join(tmp, 'tp_profile.dat')
+        with open(tfn, 'w') as fh:
+            for _ in range(tf['skiprows'] or 0):
+                fh.write('temperature pressure\n')
+            for i in range(4):
+                row = [None, None]
+                row[tcol], row[pcol] = '%.10e' % tf['T'][i], '%.10e' % pr[i]
+                fh.write(' '.join(row) + '\n')
+        lines.append('filename = %s' % tfn)
+        e['filename'] = tfn
+        if tf['skiprows'] is not None:
+            lines.append('skiprows = %d' % tf['skiprows'])
+            e['skiprows'] = tf['skiprows']
+        if tf['temp_col'] is not None:
+            lines.append('temp_col = %d' % tf['temp_col'])
+            e['temp_col'] = tf['temp_col']
+        if tf['with_p']:
+            lines.append('press_col = %d' % pcol)
+            e['press_col'] = pcol
+            if tf['press_units'] is not None:
+                lines.append('press_units = %s' % tf['press_units'])
+                e['press_units'] = tf['press_units']
+        if tf['temp_units'] is not None:
+            lines.append('temp_units = %s' % tf['temp_units'])
+            e['temp_units'] = tf['temp_units']
+        if tf['reverse'] is not None and not tf['with_p']:
+            lines.append('reverse = %s' % boolean(tf['reverse']))
+            e['reverse'] = bool(tf['reverse'])
+    keys = {'TemperatureFile': [], 'Isothermal': ['T'], 'Guillot2010': ['T_irr', 'kappa_irr', 'kappa_v1', 'kappa_v2', 'alpha', 'T_int'],
             'NPoint': ['T_surface', 'T_top', 'temperature_points', 'smoothing_window']}[tclass]
     for k in keys:
         if tk[k] is None:
@@ -469,13 +524,25 @@ def build_par(c, tmp, W):
         expect[tclass] = [e]
     lines.append('')
     # ---- pressure / planet / star
-    lines += ['[Pressure]', 'profile_type = %s' % ('hydrostatic' if c['boolform'] % 2 else 'simple')]
-    e = {}
-    for k, v in c['pkeys'].items():
-        if v is not None:
-            lines.append('%s = %s' % (k, num(v)))
-            e[k] = float(v)
-    expect['SimplePressureProfile'] = [e]
+    if tclass == 'TemperatureFile' and c['tfile'].get('pressure_file'):
+        # the SAME selector word under another section: [Pressure] profile_type = file reads layer pressures from a text file
+        # (each section resolves the word among the classes of its own kind)
+        pfn = os.path.join(tmp, 'pressure_profile.dat')
+        pmax_ = c['pkeys']['atm_max_pressure'] if c['pkeys']['atm_max_pressure'] is not None else 1e6
+        pmin_ = c['pkeys']['atm_min_pressure'] if c['pkeys']['atm_min_pressure'] is not None else 1e-4
+        with open(pfn, 'w') as fh:
+            for i in range(12):
+                fh.write('%d %.10e\n' % (i, pmax_ * (pmin_ / pmax_) ** (i / 11.0)))
+        lines += ['[Pressure]', 'profile_type = file', 'filename = %s' % pfn, 'usecols = 1']
+        expect['FilePressureProfile'] = [{'filename': pfn, 'usecols': 1}]
+    else:
+        lines += ['[Pressure]', 'profile_type = %s' % ('hydrostatic' if c['boolform'] % 2 else 'simple')]
+        e = {}
+        for k, v in c['pkeys'].items():
+            if v is not None:
+                lines.append('%s = %s' % (k, num(v)))
+                e[k] = float(v)
+        expect['SimplePressureProfile'] = [e]
     lines += ['', '[Planet]', 'planet_type = simple']
     e = {}
     for k, v in c['plkeys'].items():
@@ -682,6 +749,18 @@ def check_sections(out, c, tmp, run_cli):
             expect.pop('Planet', None)
     if any(l.startswith('profile_type = tempscalar') for l in lines):
         out.cls('mixin-selector')
+    if run_cli and c.get('cli_binning'):
+        out.cls('cli-binning:' + c['cli_binning'])
+        lines += ['', '[Binning]', 'bin_type = %s' % c['cli_binning']]
+        if c['cli_binning'] == 'manual':
+            cb = c['cli_bin']
+            lo_ = W.wn[0] + cb['span'][0] * (W.wn[-1] - W.wn[0])
+            hi_ = W.wn[0] + cb['span'][1] * (W.wn[-1] - W.wn[0])
+            if 'wavelength' in cb['kind']:
+                lo_, hi_ = 10000.0 / hi_, 10000.0 / lo_
+            lines.append('%s = %r, %r, %d' % (cb['kind'], float(lo_), float(hi_), cb['n']))
+            if cb['accurate'] is not None:
+                lines.append('accurate = %s' % ('True' if cb['accurate'] else 'False'))
     par = os.path.join(tmp, 'input.par')
     with open(par, 'w') as f:
         f.write('\n'.join(lines) + '\n')
@@ -821,6 +900,16 @@ def check_cli(out, c, tmp, par, lib_model):
         lib = cut(out, 'library-model', lib_model.model)
     want = np.array(lib[1], dtype=float, copy=True)
     grid = np.array(lib[0], dtype=float, copy=True)
+    # what the file's [Binning] section makes of that result, through the library: the program must store and save the same
+    from taurex.parameter import ParameterParser
+    pp_ = ParameterParser()
+    pp_.read(par)
+    lib_b = cut(out, 'generate_binning', pp_.generate_binning)
+    exp_grid, exp_spec = grid, want
+    if isinstance(lib_b, tuple):
+        with np.errstate(all='ignore'):
+            rb_ = cut(out, 'library-bindown', lib_b[0].bindown, grid.copy(), want.copy())
+        exp_grid, exp_spec = np.asarray(rb_[0], dtype=float), np.asarray(rb_[1], dtype=float)
     synth.reset_world()
     argv = sys.argv
     sys.argv = ['taurex', '-i', par, '-o', outfile, '-S', specfile]
@@ -833,13 +922,20 @@ def check_cli(out, c, tmp, par, lib_model):
         logging.disable(logging.CRITICAL)
     out.applies('cli-spectrum')
     got = np.loadtxt(specfile, ndmin=2)
-    if got.shape != (len(grid), 4) or not close(got[:, 0], 10000.0 / grid, rtol=1e-12) or not close(got[:, 1], want, rtol=1e-9, atol=1e-300):
-        out.fail('cli-spectrum@-S', 'saved spectrum differs from the library result (max rel %.2e)'
-                 % (maxrel(got[:, 1], want) if got.shape == (len(grid), 4) else -1))
+    btag = ',binning=%s' % c['cli_binning'] if c.get('cli_binning') else ''
+    nan_ok = lambda a_, b_: close(np.where(np.isnan(a_) & np.isnan(b_), 0.0, a_), np.where(np.isnan(a_) & np.isnan(b_), 0.0, b_), rtol=1e-9, atol=1e-300)   # noqa
+    if got.shape != (len(exp_grid), 4) or not close(got[:, 0], 10000.0 / exp_grid, rtol=1e-12) or not nan_ok(got[:, 1], exp_spec):
+        out.fail('cli-spectrum@-S' + btag, 'saved spectrum differs from the library result (%s rows, library %d)' % (got.shape, len(exp_grid)))
     with h5py.File(outfile, 'r') as f:
         ns = f['Output']['Spectra']['native_spectrum'][...]
         ng = f['Output']['Spectra']['native_wngrid'][...]
         mt = f['ModelParameters']['model_type'][()]
+        bg = np.asarray(f['Output']['Spectra']['binned_wngrid'][...], dtype=float) if 'binned_wngrid' in f['Output']['Spectra'] else None
+        bsp = np.asarray(f['Output']['Spectra']['binned_spectrum'][...], dtype=float) if 'binned_spectrum' in f['Output']['Spectra'] else None
+    if c.get('cli_binning') and (bsp is not None or isinstance(lib_b, tuple)):
+        out.applies('cli-binning')
+        if bsp is None or bsp.shape != exp_spec.shape or not nan_ok(bsp, exp_spec) or (bg is not None and not close(bg, exp_grid, rtol=1e-12)):
+            out.fail('cli-binning@-o' + btag, 'stored binned spectrum / grid are not what the [Binning] section yields through the library')
     mt = mt.decode() if isinstance(mt, bytes) else mt
     if not np.array_equal(ng, grid) or not close(ns, want, rtol=1e-9, atol=1e-300) or mt != type(lib_model).__name__:
         out.fail('cli-spectrum@-o', 'stored spectrum / model type differ from the library result')
